@@ -51,7 +51,7 @@ class Oracle:
     def getx_prev(self, key, owner, prevs, baks, cs, reply):
         """a read while previous owners are listed: the owner and every previous owner are asked; the backup owners
         only when that gave fewer versions than the read quorum.  Read-repair (if on) may rewrite the owner and the
-        backup owners: only the owner's own copy is compared afterwards in this case."""
+        backup owners: their copies are compared with the winner afterwards (previous owners are not repaired)."""
         self.pending = None
         RQ = int(self.cfg.get("rq", 1))
         first = [cs.get(h) for h in [(owner, "P")] + prevs if self.live(cs.get(h))]
@@ -84,7 +84,7 @@ class Oracle:
             self.hit("repair_owner_from_previous_owner")
             if self.cfg.get("r") == "1" and cs.get((owner, "P")) != got:
                 self.hit("repair_owner_from_previous_owner_single_copy")
-            self.pending = ("repaired", key, got, dict(cs), [(owner, "P")])
+            self.pending = ("repaired", key, got, dict(cs), [(owner, "P")] + [(b, "B") for b in baks])
         return None
 
     def observe(self, op, reply):
